@@ -770,8 +770,7 @@ Qed.
 Lemma invT_init cfg f : invT (init_state cfg f).
 Proof.
   split; simpl; try discriminate; try (intros; contradiction).
-  - intros i. constructor.
-  - intros c Hr. unfold prog_of_call, client_prog, open_file_prog in Hr. discriminate.
+  intros i. constructor.
 Qed.
 
 Lemma invT_of_reachable cfg f s : wf_cfg cfg -> reachable cfg f s -> invT s.
